@@ -321,6 +321,13 @@ func (g *astGen) expr(e ast.Expr) string {
 	case *ast.CompositeLit:
 		t := g.info.TypeOf(x)
 		tn := g.typeName(t)
+		if sl, ok := t.Underlying().(*types.Slice); ok && len(x.Elts) == 0 {
+			if b, isB := sl.Elem().Underlying().(*types.Basic); !isB || b.Kind() != types.Byte {
+				// []T{} (T not byte): the empty list. In the untyped value domain of GoLang.v an empty
+				// map and an empty non-byte slice are both VList [], which the builtin "makemap" yields.
+				return "(ECall \"makemap\" [])"
+			}
+		}
 		var fields []string
 		st, _ := t.Underlying().(*types.Struct)
 		for i, el := range x.Elts {
@@ -401,6 +408,20 @@ func (g *astGen) stmt(s ast.Stmt) string {
 		var es []string
 		for _, e := range x.Results {
 			es = append(es, g.expr(e))
+		}
+		if len(x.Results) == 1 {
+			// return f(args) with a multi-result callee: desugared into  r'0, r'1 := f(args); return r'0, r'1
+			// (the apostrophe cannot occur in a Go identifier)
+			if c, ok := x.Results[0].(*ast.CallExpr); ok {
+				if tup, ok := g.info.TypeOf(c).(*types.Tuple); ok && tup.Len() > 1 {
+					var names, vars []string
+					for i := 0; i < tup.Len(); i++ {
+						names = append(names, coqStr(fmt.Sprintf("r'%d", i)))
+						vars = append(vars, fmt.Sprintf("(EVar %s)", coqStr(fmt.Sprintf("r'%d", i))))
+					}
+					return fmt.Sprintf("SAssign [%s] [%s];\n      SReturn [%s]", strings.Join(names, "; "), es[0], strings.Join(vars, "; "))
+				}
+			}
 		}
 		if len(x.Results) == 0 {
 			if len(g.results) == 0 {
